@@ -31,7 +31,7 @@ from sim import core  # noqa: E402
 
 # property -> engines
 CHECKS = {
-    "C10": ["evalsim", "prangesim"],
+    "C10": ["prangesim", "evalsim"],
     "C12": ["paramsim"],
     "C15": ["faultsim"],
     "C18": ["fssim"],
@@ -82,6 +82,7 @@ def cmd_worker(a) -> int:
     eng = engine_module(a.engine)
     known = known_keys(a.prop)
     indices = [int(x) for x in a.indices.split(",") if x != ""]
+    events_for = {int(x) for x in (a.events_for or "").split(",") if x != ""}
     t_start = time.time()
     with open(a.out, "w") as out:
         if hasattr(eng, "warmup"):
@@ -114,9 +115,9 @@ def cmd_worker(a) -> int:
             events = outcome.pop("events")
             line.update(outcome)
             unknown = [v for v in outcome["violations"] if v["key"] not in known]
-            if outcome["violations"] or i in (indices[0], indices[len(indices) // 2], indices[-1]):
+            if outcome["violations"] or i in events_for or a.keep_events or i in (indices[0], indices[len(indices) // 2], indices[-1]):
                 line["plan"] = core.jsonable(plan)
-            if unknown or a.keep_events:
+            if unknown or a.keep_events or i in events_for:
                 line["events"] = events
             out.write(json.dumps(line) + "\n")
             out.flush()
@@ -178,10 +179,35 @@ def cmd_shrink(a) -> int:
     return 0
 
 
-def cmd_replay(a) -> int:
+def cmd_digest(a) -> int:
     core.import_glotaran()
     with open(a.file) as f:
         doc = json.load(f)
+    eng = engine_module(doc["engine"])
+    print("DIGEST", eng.execute(doc["plan"])["event_log_sha256"])
+    return 0
+
+
+def cmd_replay(a) -> int:
+    with open(a.file) as f:
+        doc = json.load(f)
+    if doc["violation"]["key"].endswith("nondeterministic-across-processes"):
+        # the violation is a difference between fresh interpreters: replay = run the plan in several and compare
+        digests = []
+        for k in range(6):
+            env = core.fixed_env({"PYTHONHASHSEED": "0" if k % 2 == 0 else "12345"})
+            out = subprocess.run(
+                [sys.executable, os.path.join(HERE, "runner.py"), "digest", a.file],
+                env=env, cwd=VERIF, capture_output=True, text=True, timeout=900,
+            ).stdout
+            digests += [ln.split()[1] for ln in out.splitlines() if ln.startswith("DIGEST")]
+            if len(set(digests)) > 1:
+                print(f"replay: {len(digests)} fresh interpreters produced {len(set(digests))} different event logs")
+                print(f"VIOLATION property={doc['property']} replay={os.path.abspath(a.file)}")
+                return 1
+        print(f"replay: {len(digests)} fresh interpreters agreed; nondeterminism NOT reproduced on this tree")
+        return 0
+    core.import_glotaran()
     eng = engine_module(doc["engine"])
     outcome = eng.execute(doc["plan"])
     key = doc["violation"]["key"]
@@ -201,7 +227,9 @@ def cmd_replay(a) -> int:
 # ---------------------------------------------------------------------------
 
 
-def spawn_workers(prop, engine, tier, seed, indices, n_workers, wall, scratch, tag, hashseed=None, keep_events=False):
+def spawn_workers(
+    prop, engine, tier, seed, indices, n_workers, wall, scratch, tag, hashseed=None, keep_events=False, events_for=()
+):
     procs = []
     n_workers = max(1, min(n_workers, len(indices)))
     for w in range(n_workers):
@@ -222,6 +250,8 @@ def spawn_workers(prop, engine, tier, seed, indices, n_workers, wall, scratch, t
         ]
         if keep_events:
             cmd.append("--keep-events")
+        if events_for:
+            cmd += ["--events-for", ",".join(map(str, events_for))]
         env = core.fixed_env({"PYTHONHASHSEED": str(hashseed)} if hashseed is not None else None)
         p = subprocess.Popen(cmd, env=env, stdout=err, stderr=err, cwd=VERIF)
         procs.append((p, out, err))
@@ -264,10 +294,10 @@ def run_engine(prop, engine, tier, seed, runs, n_workers, wall, scratch):
         n_fixed = len(eng.fixed_plans(tier))
         indices = [FIXED_BASE + j for j in range(n_fixed)] + indices
     t0 = time.time()
-    main = spawn_workers(prop, engine, tier, seed, indices, n_workers, wall, scratch, "main")
     # determinism probe: same seeds, different worker count, different hash seed, fresh interpreters
     det_idx = indices[: min(2, n_fixed)] + indices[n_fixed : n_fixed + DETERMINISM_SAMPLE]
-    det = spawn_workers(prop, engine, tier, seed, det_idx, 2, wall, scratch, "det", hashseed=12345)
+    main = spawn_workers(prop, engine, tier, seed, indices, n_workers, wall, scratch, "main", events_for=det_idx)
+    det = spawn_workers(prop, engine, tier, seed, det_idx, 2, wall, scratch, "det", hashseed=12345, keep_events=True)
     lines, errors = collect(main, wall)
     dlines, derrors = collect(det, wall)
     wall_s = time.time() - t0
@@ -280,9 +310,47 @@ def run_engine(prop, engine, tier, seed, runs, n_workers, wall, scratch):
         if "event_log_sha256" not in a or "event_log_sha256" not in b:
             continue
         det_report["checked"] += 1
+        if a.get("violations") or b.get("violations"):
+            # a run that already reports a violation stops at it; its log is not comparable and the violation speaks
+            det_report.setdefault("skipped_violating_runs", []).append(ln["i"])
+            if not a.get("violations"):
+                a["violations"] = b["violations"]
+                a["plan"] = a.get("plan") or b.get("plan")
+                a["events"] = b.get("events")
+                a["event_log_sha256"] = b["event_log_sha256"]
+            continue
         if a["event_log_sha256"] != b["event_log_sha256"]:
-            det_report["mismatches"].append(ln["i"])
+            sut_fields = getattr(eng, "SUT_OUTPUT_FIELDS", None)
+            ea, eb = a.get("events"), b.get("events")
+            if sut_fields and ea is not None and eb is not None and _strip(ea, sut_fields) == _strip(eb, sut_fields):
+                # every choice of the harness (ops, x, faults, sites) is identical in both fresh interpreters and only
+                # numbers computed by the system under test differ: the system itself is nondeterministic
+                first = next((x, y) for x, y in zip(ea, eb) if x != y)
+                a.setdefault("violations", []).append(
+                    {
+                        "property": prop,
+                        "key": f"{prop}/nondeterministic-across-processes",
+                        "class": "determinism",
+                        "message": "the same plan executed in two fresh interpreters (same seed, PYTHONHASHSEED 0 vs 12345) made "
+                        f"identical harness choices but the system under test produced different numbers: {first[0]} vs {first[1]}",
+                    }
+                )
+                a["plan"] = a.get("plan") or b.get("plan")
+                det_report.setdefault("sut_nondeterminism", []).append(ln["i"])
+            else:
+                det_report["mismatches"].append(ln["i"])
     return lines, errors + derrors, det_report, wall_s
+
+
+def _strip(events, fields):
+    def strip(o):
+        if isinstance(o, dict):
+            return {k: strip(v) for k, v in o.items() if k not in fields}
+        if isinstance(o, list):
+            return [strip(v) for v in o]
+        return o
+
+    return strip(events)
 
 
 def summarise(prop, engine, lines, known):
@@ -365,11 +433,13 @@ def shrink_and_report(prop, engine, line, scratch):
     with open(raw, "w") as f:
         json.dump(doc, f)
     env = core.fixed_env()
-    rc = subprocess.call(
-        [sys.executable, os.path.join(HERE, "runner.py"), "shrink", "--engine", engine, "--plan", raw, "--out", final,
-         "--wall", "150", "--max-exec", "300"],
-        env=env, cwd=VERIF, timeout=600,
-    )
+    rc = 1
+    if not v["key"].endswith("nondeterministic-across-processes"):
+        rc = subprocess.call(
+            [sys.executable, os.path.join(HERE, "runner.py"), "shrink", "--engine", engine, "--plan", raw, "--out", final,
+             "--wall", "150", "--max-exec", "300"],
+            env=env, cwd=VERIF, timeout=600,
+        )
     if rc != 0 or not os.path.exists(final):
         # could not shrink: keep the raw plan as the replay file
         shutil.copy(raw, final)
@@ -520,6 +590,7 @@ def main(argv=None) -> int:
     w.add_argument("--seed", type=int, required=True)
     w.add_argument("--wall", type=int, default=0)
     w.add_argument("--keep-events", action="store_true")
+    w.add_argument("--events-for", default="")
     s = sub.add_parser("shrink")
     s.add_argument("--engine", required=True)
     s.add_argument("--plan", required=True)
@@ -530,8 +601,12 @@ def main(argv=None) -> int:
     r.add_argument("prop")
     r.add_argument("file")
     r.add_argument("--lenient", action="store_true")
+    dg = sub.add_parser("digest")
+    dg.add_argument("file")
     a = ap.parse_args(argv)
-    return {"check": cmd_check, "worker": cmd_worker, "shrink": cmd_shrink, "replay": cmd_replay}[a.cmd](a)
+    return {"check": cmd_check, "worker": cmd_worker, "shrink": cmd_shrink, "replay": cmd_replay, "digest": cmd_digest}[
+        a.cmd
+    ](a)
 
 
 if __name__ == "__main__":
